@@ -44,7 +44,7 @@ const daPkg = rootPath + "/core/da"
 func submitterInstances(p *Prog) []*ssa.Function {
 	var out []*ssa.Function
 	for _, fn := range p.Funcs {
-		if fn.Parent() == nil && genericName(fn.String()) == blockF("submitToDA[_]") && len(fn.TypeArgs()) > 0 {
+		if fn.Parent() == nil && isSubmitterFn(fn) && len(fn.TypeArgs()) > 0 {
 			out = append(out, fn)
 		}
 	}
@@ -307,8 +307,7 @@ func runC06(c *Check) {
 	}
 
 	// ---- postSubmit closures: height passed on = height of the last element of the submitted slice
-	for _, l := range []string{"submitHeadersToDA", "submitDataToDA"} {
-		fnL := p.MustFunc(mgrM(l))
+	for _, fnL := range submitterCallers(p) {
 		for _, cl := range fnL.AnonFuncs {
 			g := BuildECFG(p, cl, ExpandOpts{MaxDepth: 2})
 			ss := g.Select(setter)
@@ -553,7 +552,18 @@ func rulePendingRange(c *Check, p *Prog) {
 func ruleBlobProvenance(c *Check, p *Prog) {
 	rule := "C06-R6"
 	// header blobs: the marshal function passed by submitHeadersToDA
-	sh := p.MustFunc(mgrM("submitHeadersToDA"))
+	var sh, sd *ssa.Function
+	for _, f := range submitterCallers(p) {
+		if len(f.Params) >= 3 && strings.Contains(f.Params[2].Type().String(), "SignedHeader") {
+			sh = f
+		} else if len(f.Params) >= 3 && strings.Contains(f.Params[2].Type().String(), "SignedData") {
+			sd = f
+		}
+	}
+	if sh == nil || sd == nil {
+		c.Unk(rule, "submitter-callers", "", "", "anchor lost: the functions handing headers / signed data to the generic submitter")
+		return
+	}
 	okH := false
 	for _, cl := range sh.AnonFuncs {
 		if cl.Signature.Results().Len() != 2 {
@@ -574,7 +584,6 @@ func ruleBlobProvenance(c *Check, p *Prog) {
 	if !okH {
 		c.Bad(rule, "header-blob = proto.Marshal(ToProto(header))", fnName(sh), p.Pos(sh.Pos()), "the header marshal function does not return proto.Marshal(header.ToProto())", nil)
 	}
-	sd := p.MustFunc(mgrM("submitDataToDA"))
 	okD := false
 	for _, cl := range sd.AnonFuncs {
 		if cl.Signature.Results().Len() != 2 {
@@ -1016,4 +1025,24 @@ func ruleLoopSkipsOnlyWhenOwnTrackerEmpty(c *Check, p *Prog, rule string) {
 			"the loop can pass over a tick without looking at its pending list although that list ("+tracker+") is not empty — e.g. it tests another tracker: items stay pending, and with a pending limit block production is refused for good", g, path)
 	}
 	c.MinInstances(rule, 2)
+}
+
+// submitterCallers: the functions of package block that call an instantiation of the generic submitter.
+func submitterCallers(p *Prog) []*ssa.Function {
+	var out []*ssa.Function
+	seen := map[*ssa.Function]bool{}
+	for _, fn := range p.Funcs {
+		pk := fnPkg(fn)
+		if pk == nil || pk.Pkg.Path() != rootPath+"/block" || fn.Parent() != nil {
+			continue
+		}
+		for _, cal := range staticCalleesOf(p, fn) {
+			if isSubmitterFn(cal) && !seen[fn] && !isSubmitterFn(fn) {
+				seen[fn] = true
+				out = append(out, fn)
+			}
+		}
+	}
+	sort.Slice(out, func(i, j int) bool { return out[i].String() < out[j].String() })
+	return out
 }
